@@ -8,8 +8,8 @@ import subprocess
 ROOT = os.path.dirname(os.path.dirname(os.path.abspath(__file__)))
 
 TEXT = {
- "C01": "theorems (all inputs): the cursor operations refine a byte-array cursor (seek ranges, eof/length/offset), find_data_on_disk's arithmetic and closed form, a stale cursor is never used for an earlier offset, walking from a cursor on the chain = walking from the start, partial-block writes preserve every other byte, reads never copy past request / file / block; the full history refinement is stated and NOT proved (partial). Correspondence + oracle: generated multi-file, multi-volume histories on the real crate vs the Lean model and vs a byte-array model of every file",
- "C02": "theorems: flushing writes exactly one directory block, changes only the 32 bytes of the file's slot, and the slot then decodes to the flushed entry (name, attributes, size, cluster, times); other slots preserved. Correspondence + oracle: histories with remount at quiescent points; the independent Lean FAT reader's dump of the crate's medium is compared entry for entry with a reference tree; a fresh VolumeManager reads everything back. Whole-history persistence is partial (tested, not proved)",
+ "C01": "theorems (all inputs, no bound on sizes): read_refines (Props/C01Read) and write_refines (Props/C01Write): on every manager state whose open file is consistent with the medium (FAT chain exists, long enough; any length, any fragmentation, cursor anywhere) `read` returns exactly the byte-array model's bytes and `write` leaves exactly the byte-array model's contents, length and position (all of the data, or - volume full / 4 GiB limit - an out-of-space error with a stored prefix), re-establishing the invariant; other open files of the same volume and of other partitions keep their record and read back the same bytes (write_other_files_untouched, write_other_volume_untouched); write_then_read; every device write of a write call is a FAT block or a block of the file's own chain. data_history_refines: EVERY history of read / write / seek / length / offset / eof calls on any set of open files of one volume, bad handles included, yields answers allowed by the byte-array model and preserves the invariant. Cursor algebra, find_data_on_disk closed form, partial-block frames (Props/C01). Partial: that open/close/create establish the invariant (C02Reopen covers read-only open) and multi-volume histories are checked, not proved. Correspondence + oracle: generated multi-file, multi-volume histories on the real crate vs the Lean model and vs a byte-array model of every file",
+ "C02": "theorems: flushing writes exactly one directory block, changes only the 32 bytes of the file's slot, and the slot then decodes to the flushed entry (name, attributes, size, cluster, times at FAT resolution); other slots preserved (Props/C02). Composition (Props/C02Reopen): reopen_reads_flushed / remount_reads_flushed - after close of a file consistent with the medium, EVERY manager on the resulting medium (in particular a fresh one: open_raw_volume, open_root_dir, open_file_in_dir ReadOnly, read - mounting proved to depend on three blocks the flush does not change) finds the name, reports the flushed length and reads back exactly the flushed bytes, writing nothing; the independent specification reader (Spec.Fs) returns the same chain and bytes (spec_reader_agrees); every other directory slot and every other chain is byte-for-byte unchanged by flush/close (untouched_entries_unchanged, untouched_files_unchanged); opening establishes the file invariant of C01 (open_establishes_fileOK). Partial: name uniqueness in the directory is a hypothesis (C03's invariant), sub-directory remount needs open_dir steps (root covered), whole histories are checked: remount at quiescent points, the independent Lean FAT reader's dump of the crate's medium compared entry for entry with a reference tree",
  "C03": "theorems: allocation only ever returns a free cluster inside the volume, never a slack or reserved entry; create uses the first free slot and never writes past an end marker; new directories get correct dot entries; truncation keeps and terminates the first cluster. The global fsck invariant over histories is NOT proved (partial): the Lean fsck runs on the crate's medium after every single call of generated histories incl. full volumes and full FAT16 roots",
  "C04": "theorems: under the geometry hypothesis established by mounting, FAT entries of the volume's clusters lie in the FAT region, data-cluster blocks in the data region, disjoint from boot sector, info sector, block 0, other clusters; each primitive writes only the blocks it names; slot and FAT-entry writes preserve all other bytes (FAT32 top nibble kept). Composition over whole calls is partial: every write of every call in generated histories is checked by the region/frame oracle",
  "C05": "theorems: the free-cluster search is sound and complete (never a slack entry), allocation succeeds iff the volume has a free cluster (the last one included) and fails with NotEnoughSpace without writing otherwise; truncation / deletion free exactly the chain (tail) and change no other FAT entry; the forest invariant (every used cluster belongs to exactly one chain of a live root; chains pairwise disjoint) and the exactness of a known free count are preserved by EVERY history of FAT-engine operations (new chain, extend, truncate, free) on every volume - no_leak, no_sharing, count_history (Props/C05Forest.lean; fault-free runs). Partial: that each API call is such a sequence of engine operations and that roots = directory entries is checked, not proved: at every quiescent point of generated histories (volumes driven to exactly full and back) the Lean spec compares used clusters with the union of chains",
@@ -19,7 +19,7 @@ TEXT = {
  "C09": "theorems: the per-write frames flushed data relies on - a directory-slot write preserves every other slot, a FAT update preserves every other entry, create only overwrites a free slot, delete changes one byte of the matched slot, allocation only takes free clusters and zeroing only touches the new cluster. The prefix-closure over histories is partial: after every prefix of every later operation's writes the independent Lean reader must still find each flushed file intact",
  "C10": "theorems: exact order of the block writes of allocation (blank, end-of-chain mark, then link), of make_dir (allocate and initialise the new directory before the single parent-entry write), delete (entry first); final FAT contents of an allocation. That every prefix satisfies fsck is partial: the Lean fsck (crash variant) runs after every single write of every operation on images with stale directory data in free clusters",
  "C11": "theorems (every fault placement, every state, every op): any device failure during a FAT-engine function surfaces as DeviceError, any failure during an API call yields an error (never Ok, never panic, never divergence), failed read-only calls write nothing and leave the offset, the cache tag is cleared by a failed read. Correspondence: base histories re-run with a failure at every device-call index and random multi-fault sequences, reads compared",
- "C12": "theorems: CSD bit-field tables = specification positions, capacity formulas = the specification's for both layouts, layout chosen by the register, address mode per card kind, multi-block = singles at the frame level; end-to-end correctness against the card specification is partial (stretch). Correspondence + oracle: the real driver against the Lean card specification for all kinds x CRC x timings, memory oracle after every write",
+ "C12": "theorems: CSD bit-field tables = specification positions, capacity formulas = the specification's for both layouts, layout chosen by the register, address mode per card kind, multi-block = singles at the frame level (Props/C12). End to end, the driver model run against the specification card as its bus (Props/C12EndToEnd), for every card kind, either CRC mode and every card timing inside the driver's budgets: a single-block write stores exactly the given bytes at that block and nowhere else; a single-block read returns the stored block; multiple-block reads / writes return / store exactly blocks idx..idx+n-1, equal the same single-block transfers in order (read_multi_eq_singles, write_multi_eq_singles); write_then_read; num_blocks / num_bytes equal the capacity encoded in the card's CSD; acquire identifies the card kind from power-up and establishes the hypotheses of the transfer theorems (fresh_card_write_then_read); no protocol violation is recorded by the card in any of these. Correspondence + oracle: the real driver against the Lean card specification for all kinds x CRC x timings incl. slow legal cards, memory oracle after every write",
  "C13": "theorems (every bus = every adversarial card): closed-form bound on bytes exchanged and delay calls for every driver call (termination by structural recursion on the budgets), Ok from read_data with CRC on implies the received CRC matches (with C19: corruption detected), unacknowledged / failed / unexpected-token / SPI-error cases are errors, failed initialisation leaves the card uninitialised. Fault injection between the card specification and the real driver: bit flips, bursts, dead / busy / garbage card at sampled byte positions, rejected writes, SPI errors",
  "C14": "theorems (every bus, every call): every command frame is 0x40|c, big-endian argument, CRC-7 (= the polynomial's, by C19) with end bit; commands other than CMD0/CMD12 are directly preceded by a poll that read 0xFF; ACMD41/ACMD23 directly follow CMD55; data framing; CMD18 is followed by CMD12, CMD25 by the stop token; identification order. Oracle: the card specification's violation list and an independent frame parser on every session incl. after errors and re-identification",
  "C15": "mounting never panics for arbitrary MBR / boot-sector / info-sector bytes (proved about a model with the Rust's checked/unchecked u32 arithmetic), every well-formed boot sector yields the Microsoft-formula layout, type boundaries 4085/65525, info sentinels, MBR rules: proved in Lean 4; correspondence on a valid grid from an independent formatter, field boundary values, mutations and random sectors through the real open_raw_volume",
